@@ -43,7 +43,7 @@ def run(ctx):
     gate = vf.grep_gate()
     if gate:
         ctx.broken.append('forbidden constructs in coq/: ' + '; '.join(gate[:5]))
-    n, extra = (1600, 2500) if not ctx.thorough() else (12000, 400000)
+    n, extra = (2000, 8000) if not ctx.thorough() else (12000, 400000)
     rc, out = vf.sh([os.path.join(vf.BIN, 'c06'), '-seed', str(ctx.seed), '-n', str(n), '-oracle-n', str(extra),
                      '-tier', ctx.tier, '-out', ctx.out], timeout=3000)
     if rc != 0:
